@@ -355,6 +355,25 @@ func oracleC02(c c2Case) error {
 			if after["gengo.sum"] != start["gengo.sum"] {
 				return fmt.Errorf("%s: gengo.sum was rewritten by a failed run", where)
 			}
+			if i%3 == 0 {
+				// the caller repairs the cause and calls Execute again on the same Executor: the failed package is not done yet
+				if err := start.Restore(dir); err != nil {
+					panic("harness: restore: " + err.Error())
+				}
+				rr := script.Run(script.RunSpec{Dir: dir, Entrypoints: ent, All: true, Force: c.Force, Globals: globals, Base: "zz_generated", Scripts: scripts, Retry: c.baseScripts()})
+				if !rr.Failed || !rr.Retried {
+					return fmt.Errorf("%s: the first Execute of the retry scenario did not fail", where)
+				}
+				if rr.RetryFailed {
+					return fmt.Errorf("%s: the second Execute on the same Executor (with generators that no longer fail) returns %q", where, rr.RetryErr)
+				}
+				for _, ch := range modspec.Diff(clean, mustSnapshot(dir)) {
+					if ch.Path == "gengo.sum" {
+						continue
+					}
+					return fmt.Errorf("%s: after a failed Execute and a second, successful Execute on the same Executor the tree differs from what a clean run produces: %s %s (the failed package was taken as done)", where, ch.Path, ch.Kind)
+				}
+			}
 		}
 	}
 	return nil
